@@ -78,7 +78,7 @@ pub struct UniCase {
     pub senders: u8,
 }
 
-pub static UNI_CFGS: [(u8, u8); 3] = [(4, 1), (4, 2), (8, 4)];
+pub static UNI_CFGS: [(u8, u8); 4] = [(4, 1), (4, 2), (8, 4), (64, 8)];
 pub static UNI_EXECS: [ExecKind; 4] = [ExecKind::FutFall, ExecKind::Fut, ExecKind::Fall, ExecKind::Plain];
 
 pub fn uni_behs(case: &UniCase) -> Vec<Beh> {
@@ -198,6 +198,7 @@ macro_rules! by_uni_cfg {
             (4, 1) => { const $B: usize = 4; const $M: usize = 1; $e },
             (4, 2) => { const $B: usize = 4; const $M: usize = 2; $e },
             (8, 4) => { const $B: usize = 8; const $M: usize = 4; $e },
+            (64, 8) => { const $B: usize = 64; const $M: usize = 8; $e },
             other => panic!("unsupported Uni configuration {:?}", other),
         }
     }
